@@ -460,7 +460,7 @@ def jsonable(c):
 
 
 def pregen(ctx):
-    """tie (T): re-translate check_vector (utils/validation.py) and check_one_sequence / check_n_sequences (_base.py) of the tree under
+    """tie (T), two independent units: re-translate check_vector (utils/validation.py) and check_one_sequence / check_n_sequences (_base.py) of the tree under
     test into coq/gen/Gen_validation.v (translator vlib/py2coq_val.py, vocabulary coq/base/ValPrelude.v); proofs/Gen_validation_eq.v then
     proves them equal to model/Shapes.v.  Returns None or the error text; on rejection a stub that does not compile replaces the
     file (never a stale model)."""
@@ -482,7 +482,27 @@ def pregen(ctx):
     if old != text:               # keep the mtime (and the compiled cone) when nothing changed
         with open(path, "w") as f:
             f.write(text)
-    return None if err is None else "unit validation (check_vector, check_one_sequence, check_n_sequences): %s" % err
+    errs = [] if err is None else ["unit validation (check_vector, check_one_sequence, check_n_sequences): %s" % err]
+    # second, independent unit: register_teacher / _check_node_io / check_xy (_base.py) -> coq/gen/Gen_validation2.v (translator
+    # vlib/py2coq_val2.py, vocabulary coq/base/ValPrelude2.v); proofs/Gen_validation2_eq.v proves the Node-caller check_xy equal to Shapes.check_xy
+    from vlib import py2coq_val2
+    path2 = os.path.join(core.COQ, "gen", "Gen_validation2.v")
+    err2 = None
+    try:
+        text2 = py2coq_val2.emit(core.REPO)
+    except py2coq_val.Reject as ex:
+        err2 = "translation rejected: %s" % ex
+    except Exception:
+        err2 = "translator exception: " + traceback.format_exc()[-1500:]
+    if err2 is not None:
+        text2 = "(* GENERATED: translation of register_teacher / _check_node_io / check_xy FAILED -- %s *)\nDefinition translation_failed : True := 0.\n" % (
+            err2.replace("*)", "* )").replace("(*", "( *"))
+        errs.append("unit node-io (register_teacher, _check_node_io, check_xy): %s" % err2)
+    old2 = open(path2).read() if os.path.exists(path2) else None
+    if old2 != text2:
+        with open(path2, "w") as f:
+            f.write(text2)
+    return None if not errs else "; ".join(errs)
 
 
 def correspondence(ctx):
